@@ -14,15 +14,15 @@ echo "changed packages: $pkgs"; echo "demo: $demos"
 out=/verif/seeded/$name; mkdir -p $out
 log=$out/confirm.log; : > $log
 echo "## demo WITH change (must fail)" >> $log
-go test $SEED_GOFLAGS -count=1 -vet=off -run 'TestSeedDemo' $demopkgs >> $log 2>&1; with=$?
+go test ${SEED_GOFLAGS:-} -count=1 -vet=off -run 'TestSeedDemo' $demopkgs >> $log 2>&1; with=$?
 git apply -R /tmp/$name.patch
 echo "## demo WITHOUT change (must pass)" >> $log
-go test $SEED_GOFLAGS -count=1 -vet=off -run 'TestSeedDemo' $demopkgs >> $log 2>&1; without=$?
+go test ${SEED_GOFLAGS:-} -count=1 -vet=off -run 'TestSeedDemo' $demopkgs >> $log 2>&1; without=$?
 echo "## existing tests WITHOUT change" >> $log
-go test $SEED_GOFLAGS -count=1 -vet=off -skip 'TestSeedDemo' $pkgs 2>&1 | grep -E '^(ok|FAIL|---)' | sort > /tmp/$name.base
+go test ${SEED_GOFLAGS:-} -count=1 -vet=off -skip 'TestSeedDemo' $pkgs 2>&1 | grep -E '^(ok|FAIL|---)' | sort > /tmp/$name.base
 git apply /tmp/$name.patch
 echo "## existing tests WITH change" >> $log
-go test $SEED_GOFLAGS -count=1 -vet=off -skip 'TestSeedDemo' $pkgs 2>&1 | grep -E '^(ok|FAIL|---)' | sort > /tmp/$name.with
+go test ${SEED_GOFLAGS:-} -count=1 -vet=off -skip 'TestSeedDemo' $pkgs 2>&1 | grep -E '^(ok|FAIL|---)' | sort > /tmp/$name.with
 sed -E 's/[0-9.]+s$//; s/\([0-9.]+s\)//' /tmp/$name.base > /tmp/$name.base2; sed -E 's/[0-9.]+s$//; s/\([0-9.]+s\)//' /tmp/$name.with > /tmp/$name.with2
 cat /tmp/$name.with >> $log
 same=no; diff -q /tmp/$name.base2 /tmp/$name.with2 >/dev/null && same=yes
@@ -35,7 +35,7 @@ import json,sys,re
 name,prop,w,wo,same=sys.argv[1:]
 rep=open('/verif/seeded/%s/SEED_REPORT.md'%name).read() if True else ''
 meta={"seed":name,"property":prop,"confirmed":{"demo_fails_with_change":w!="0","demo_passes_without_change":wo=="0","existing_tests_unchanged":same=="yes"},
-"ran":["go test $SEED_GOFLAGS -count=1 -vet=off -run TestSeedDemo <demo pkg> (with and without the change)","go test $SEED_GOFLAGS -count=1 -vet=off -skip TestSeedDemo <touched pkgs> (with and without; compared)"],
+"ran":["go test ${SEED_GOFLAGS:-} -count=1 -vet=off -run TestSeedDemo <demo pkg> (with and without the change)","go test ${SEED_GOFLAGS:-} -count=1 -vet=off -skip TestSeedDemo <touched pkgs> (with and without; compared)"],
 "needs_to_manifest":"see SEED_REPORT.md","detected_by":None}
 json.dump(meta,open('/verif/seeded/%s/meta.json'%name,'w'),indent=1)
 PY
